@@ -1685,11 +1685,11 @@ def r15_3(c, R):
         names = [p.get("name") for p in b.get("params", [])]
         R.anchor(rid, "store(&mut self, name, super_class, interfaces)", len(names) == 4, sp=b["sp"])
 
-        def src(e):
+        def src(e, fn=fn):
             ch = fn.trace(e)
             if ch.root[0] != "param":
                 return "?(%s)" % ch.show()[:50]
-            hops = [h for h in ch.hops if not (h[0] == "call" and h[1] in ("clone", "to_owned", "as_ref", "borrow", "into"))]
+            hops = [h for h in ch.hops if not (h[0] == "call" and h[1] in ("clone", "to_owned", "as_ref", "borrow", "into", "into_iter", "iter"))]
             i = ch.root[1]
             if i == 1 and not hops:
                 return "name"
@@ -1699,17 +1699,28 @@ def r15_3(c, R):
                 return "iface"
             return "?(%s)" % ch.show()[:50]
         edges = {}
+        # the inserts of `store` itself and of the private methods of the index it hands an edge to (`self.add_parent(name, x)`): the helper
+        # is read with its parameters standing for the arguments of the call, under the conditions of the call
+        scopes = [(fn, [], None)]
         for n in H.walk(fn.root):
-            if n.get("k") == "mcall" and n["name"] in ("insert", "insert_full") and len(n["args"]) == 1:
-                ents = [x for x in H.walk(n["recv"]) if x.get("k") == "mcall" and x["name"] == "entry" and len(x["args"]) == 1]
-                if len(ents) != 1:
-                    continue
-                mp = fn.trace(ents[0]["recv"])
-                fld = [h for h in mp.hops if h[0] == "f"]
-                if mp.root[:2] != ("param", 0) or not fld:
-                    continue
-                conds = H.path_conditions(fn.root, n)
-                edges.setdefault((fld[-1][2], src(ents[0]["args"][0]), src(n["args"][0])), []).append((n, conds))
+            if n.get("k") in ("mcall", "call"):
+                cal = n.get("callee") or {}
+                hb = c.by_key.get(cal.get("inst_key") or cal.get("key"))
+                if hb is not None and (hb.get("impl_ty") or "") == IDX and hb.get("name") != "store" and "body" in hb:
+                    hfn = U3.Fn(c, hb, subst={i: (fn, a) for i, a in enumerate(H.call_args(n))})
+                    scopes.append((hfn, H.path_conditions(fn.root, n), n))
+        for sfn, pre, site in scopes:
+            for n in H.walk(sfn.root):
+                if n.get("k") == "mcall" and n["name"] in ("insert", "insert_full") and len(n["args"]) == 1:
+                    ents = [x for x in H.walk(n["recv"]) if x.get("k") == "mcall" and x["name"] == "entry" and len(x["args"]) == 1]
+                    if len(ents) != 1:
+                        continue
+                    mp = sfn.trace(ents[0]["recv"])
+                    fld = [h for h in mp.hops if h[0] == "f"]
+                    if mp.root[:2] != ("param", 0) or not fld:
+                        continue
+                    conds = pre + H.path_conditions(sfn.root, n)
+                    edges.setdefault((fld[-1][2], src(ents[0]["args"][0], sfn), src(n["args"][0], sfn)), []).append((site or n, conds))
         want = [("parents", "name", "super"), ("children", "super", "name"), ("parents", "name", "iface"), ("children", "iface", "name")]
         for w in want:
             got = edges.get(w)
@@ -1735,6 +1746,11 @@ def r15_3(c, R):
                     R.inst(rid, "store:condition:%s[%s]+=%s" % w, not bad, sp=n.get("sp"),
                            expect="only `super_class is Some` and `super_class != java/lang/Object`", got=bad)
         loops = [n for n in H.walk(fn.root) if n.get("k") == "for" and fn.trace(n["iter"]).root[:2] == ("param", 3)]
+        for n in H.walk(fn.root):
+            # `interfaces.into_iter().for_each(|interface| ..)` is the same walk
+            if n.get("k") == "mcall" and n["name"] == "for_each" and len(n["args"]) == 1 and H.peel(n["args"][0]).get("k") == "closure" \
+                    and fn.trace(n["recv"]).root[:2] == ("param", 3):
+                loops.append({"k": "for", "iter": n["recv"], "body": H.peel(n["args"][0])["body"], "sp": n.get("sp"), "_node": n})
         if R.anchor(rid, "for interface in interfaces", len(loops) == 1, sp=b["sp"]):
             lp = loops[0]
             ch = fn.trace(lp["iter"])
@@ -1742,16 +1758,17 @@ def r15_3(c, R):
             muts = [n for n in H.walk(fn.root) if n.get("k") == "mcall" and n["name"] in _DROPPERS and H.local_of(n["recv"])
                     and fn.trace(n["recv"]).root[:2] == ("param", 3)]
             before = []
+            lpn = lp.get("_node", lp)
             for n in H.walk(fn.root):
-                if n is lp:
+                if n is lpn:
                     break
                 if n.get("k") == "ret":
                     before.append(n)
             inside = _has_exit(lp["body"])
-            R.inst(rid, "store:interfaces:complete-walk", not drops and not muts and not before and not inside and not H.path_conditions(fn.root, lp),
+            R.inst(rid, "store:interfaces:complete-walk", not drops and not muts and not before and not inside and not H.path_conditions(fn.root, lpn),
                    sp=lp.get("sp"), expect="unconditional loop over all of `interfaces`, no return before it, no continue/break/return in it",
                    got={"dropping": drops + [H.render(m)[:60] for m in muts], "return-before-loop": [n.get("sp") for n in before],
-                        "exits-in-loop": [H.render(x) for x in inside], "conditions": [(k, H.render(cn)[:60], p) for k, cn, p in H.path_conditions(fn.root, lp)]},
+                        "exits-in-loop": [H.render(x) for x in inside], "conditions": [(k, H.render(cn)[:60], p) for k, cn, p in H.path_conditions(fn.root, lpn)]},
                    detail="a class whose interface edges are missing is not recognised as a subtype of its interfaces: a synthetic, unflagged method "
                           "narrowing such an interface is not treated as a bridge (seed C15-4)")
     # the visitor hands the header over position-wise
